@@ -220,9 +220,10 @@ NP_UNARY = {
     'fabs': 'abs', 'absolute': 'abs', 'floor': 'floor', 'rint': 'rint',
     'around': 'rint', 'round': 'rint', 'trunc': 'trunc', 'tan': 'tan',
     'arctan': 'atan', 'log10': 'log10', 'square': None, 'ceil': 'ceil',
+    'expm1': 'expm1',      # derived operation nexpm1 of base/NumX.v (Kahan's formula), not a Num field
 }
 NP_BINARY = {
-    'arctan2': 'atan2', 'power': 'pow', 'mod': 'fmod', 'fmod': 'fmod',
+    'arctan2': 'atan2', 'power': 'pow', 'mod': 'fmod',   # np.mod only: np.fmod (sign of the dividend) is NOT the model's nfmod -> rejected
     'minimum': 'min', 'maximum': 'max', 'multiply': 'mul', 'divide': 'div',
     'add': 'add', 'subtract': 'sub',
 }
@@ -493,6 +494,19 @@ class Emitter:
                     return s, 'Z'
                 self.fail(n, 'int() of a non-division in this mode')
             if fn in ('float', 'np.float64', 'np.asarray', 'np.array', 'np.atleast_1d') and len(n.args) >= 1:
+                # value-preserving conversions only: one positional argument, and at most a dtype keyword
+                # naming a double / the same kind (anything else could change the value: fail closed)
+                okdt = {'np.float64', 'np.double', 'float', 'np.float_', 'numpy.float64', 'np.bool_', 'bool'}   # bool: the kernel's declared type does the coercion
+                for kw in n.keywords:
+                    if kw.arg == 'dtype' and ast.unparse(kw.value) in okdt:
+                        continue
+                    if kw.arg in ('copy', 'ndmin'):
+                        continue
+                    self.fail(n, f'conversion with keyword {kw.arg}={ast.unparse(kw.value)}')
+                if len(n.args) == 2 and ast.unparse(n.args[1]) in okdt:
+                    return self.e(n.args[0])
+                if len(n.args) != 1:
+                    self.fail(n, 'conversion with extra positional arguments')
                 return self.e(n.args[0])
             if fn in ('np.take', 'numpy.take') and len(n.args) == 2 and not n.keywords:
                 # np.take(a, i) is the lookup a[i]
@@ -610,7 +624,7 @@ class Emitter:
                 if base in NP_UNARY and len(n.args) == 1 and kwnames and kwnames <= {'where', 'out'} and m == 'Num':
                     a, ta = self.e(n.args[0])
                     return f'(n{NP_UNARY[base]} Nm_ {a})', 'T'
-                if base in NP_UNARY and len(n.args) >= 1 and not n.keywords or (base in ('around', 'round') and len(n.args) == 1):
+                if (base in NP_UNARY and len(n.args) == 1 and not n.keywords) or (base in ('around', 'round') and 1 <= len(n.args) <= 2):
                     if base in ('around', 'round') and (len(n.args) != 1 or n.keywords):
                         # np.around(x, d) = rint(x*10^d)/10^d
                         if len(n.args) == 2 and isinstance(n.args[1], ast.Constant) and m == 'Num':
@@ -657,6 +671,18 @@ class Emitter:
                     return f"(n{fn} Nm_ {a} {b})", 'T'
             # any other call: abstract it if the kernel expects it
             return self.abstract(n, ast.unparse(n), None)
+        if isinstance(n, ast.Dict) and len(n.keys) >= 2 and all(k is None for k in n.keys):
+            # {**a, **b, ...}: a pure merge of dictionaries; the kernel is the ORDER of the operands
+            # (later ones override earlier ones), each operand an integer token (Z mode only)
+            if m != 'Z':
+                self.fail(n, 'dictionary merge outside Z mode')
+            elts = [self.e(v) for v in n.values]
+            if any(t != 'Z' for _, t in elts):
+                self.fail(n, 'dictionary merge of non-token operands (declare them via atoms as :Z)')
+            s = 'nil'
+            for (x, _) in reversed(elts):
+                s = f'(cons {x} {s})'
+            return s, 'ZL'
         if isinstance(n, ast.Tuple) and len(n.elts) == 1:
             return self.e(n.elts[0])
         if isinstance(n, ast.List) and len(n.elts) >= 2:
@@ -691,7 +717,7 @@ def binder(args, mode):
     return ' '.join(out)
 
 
-def stmt_skeleton(body):
+def stmt_skeleton(body, values=False, withs=False):
     """statement kinds with nesting; docstrings dropped; assignment targets and the test / iterator / raised or
     returned expression text kept, so that an added branch, a re-bound name or a changed guard is visible"""
     out = []
@@ -699,24 +725,29 @@ def stmt_skeleton(body):
         if isinstance(st, ast.Expr) and isinstance(st.value, ast.Constant) and isinstance(st.value.value, str):
             continue
         if isinstance(st, ast.Assign):
-            out.append('Assign[' + ','.join(ast.unparse(t) for t in st.targets) + ']')
+            out.append('Assign[' + ','.join(ast.unparse(t) for t in st.targets) + ']'
+                       + ('=<' + ast.unparse(st.value) + '>' if values else ''))
         elif isinstance(st, ast.AugAssign):
-            out.append('AugAssign[' + ast.unparse(st.target) + ']')
+            out.append('AugAssign[' + ast.unparse(st.target) + ']'
+                       + ('=<' + ast.unparse(st.value) + '>' if values else ''))
         elif isinstance(st, ast.If):
-            s_ = 'If<' + ast.unparse(st.test) + '>(' + stmt_skeleton(st.body) + ')'
+            s_ = 'If<' + ast.unparse(st.test) + '>(' + stmt_skeleton(st.body, values, withs) + ')'
             if st.orelse:
-                s_ += 'Else(' + stmt_skeleton(st.orelse) + ')'
+                s_ += 'Else(' + stmt_skeleton(st.orelse, values, withs) + ')'
             out.append(s_)
         elif isinstance(st, ast.For):
-            out.append('For<' + ast.unparse(st.target) + ' in ' + ast.unparse(st.iter) + '>(' + stmt_skeleton(st.body) + ')')
+            out.append('For<' + ast.unparse(st.target) + ' in ' + ast.unparse(st.iter) + '>(' + stmt_skeleton(st.body, values, withs) + ')')
         elif isinstance(st, ast.While):
-            out.append('While<' + ast.unparse(st.test) + '>(' + stmt_skeleton(st.body) + ')')
+            out.append('While<' + ast.unparse(st.test) + '>(' + stmt_skeleton(st.body, values, withs) + ')')
         elif isinstance(st, ast.Return):
             out.append('Return<' + (ast.unparse(st.value) if st.value is not None else '') + '>')
         elif isinstance(st, ast.Raise):
             out.append('Raise<' + (ast.unparse(st.exc.func) if isinstance(st.exc, ast.Call) else 'exc') + '>')
         elif isinstance(st, ast.Expr):
             out.append('Expr<' + ast.unparse(st.value) + '>')
+        elif withs and isinstance(st, ast.With):
+            # opt-in (kernel option descend_with = true): the body of a `with` block belongs to the skeleton
+            out.append('With(' + stmt_skeleton(st.body, values, withs) + ')')
         else:
             out.append(type(st).__name__)
     return ';'.join(out)
@@ -728,14 +759,15 @@ def translate_kernel(k, trees):
         with open(path) as f:
             trees[path] = ast.parse(f.read(), filename=path)
     func = find_func(trees[path], k['func'])
-    if k['select'] == 'shape':
+    if k['select'] in ('shape', 'shapev'):
         # structural pin (C07): the statement skeleton of the function (statement kinds, nesting, assignment
         # targets, called mutators) must be exactly `expect`; emits the constant `true`.  Fail-closed.
-        skel = stmt_skeleton(func.body)
+        skel = stmt_skeleton(func.body, values=(k['select'] == 'shapev'), withs=bool(k.get('descend_with', False)))
         if skel != k.get('expect'):
             raise TranslateError(f"kernel {k['name']}: statement skeleton of {k['func']} is {skel!r}, "
                                  f"kernels pin {k.get('expect')!r}")
-        text = (f"(* {k['file']}:{k['func']} [shape] line {func.lineno}\n   {skel} *)\n"
+        skel_c = skel.replace('(*', '( *').replace('*)', '* )')     # keep the Coq comment well-formed
+        text = (f"(* {k['file']}:{k['func']} [shape] line {func.lineno}\n   {skel_c} *)\n"
                 f"Definition {k['name']} : bool := true.")
         return text, skel
     expr, lineno = select_expr(func, k['select'])
@@ -828,6 +860,8 @@ def main(argv):
                'From Coq Require Import ZArith Bool.']
         if 'Num' in m['modes']:
             hdr.append('From Sky Require Import Num.')
+        if any('(nexpm1 ' in d for d in m['defs']):
+            hdr.append('From Sky Require Import NumX.')
         if any('List.existsb' in d for d in m['defs']):
             hdr.append('From Coq Require List.')
         hdr.append('Open Scope Z_scope.')
